@@ -57,10 +57,12 @@ type Env struct {
 	faults   map[string]*Term
 	faultOn  map[string]bool
 	diskWritesOutsideSync int
+	groups map[Loc]*egState
+	nrand  int
 }
 
 func NewEnv(m *Machine) *Env {
-	return &Env{m: m, files: map[string]*FsFile{}, pageSize: 4096, faults: map[string]*Term{}, faultOn: map[string]bool{}}
+	return &Env{m: m, files: map[string]*FsFile{}, pageSize: 4096, faults: map[string]*Term{}, faultOn: map[string]bool{}, groups: map[Loc]*egState{}}
 }
 
 func (e *Env) event(s string) { e.events = append(e.events, s) }
@@ -189,6 +191,14 @@ func (m *Machine) vrtEnvCall(name string, a []Value) (Value, bool) {
 		return c.Bool(ok), true
 	case "LogLen":
 		return c.IntI(SI64, int64(len(e.log))), true
+	case "Writer":
+		return IfaceV{t: discardType, v: &DiscardObj{}}, true
+	case "LogHasPrefix":
+		i, _ := a[0].(*Term).ConstInt64()
+		if int(i) >= len(e.log) {
+			return c.Bool(false), true
+		}
+		return c.Bool(strings.HasPrefix(e.log[i].Format, m.mustStr(a[1]))), true
 	case "LogFormat":
 		i, _ := a[0].(*Term).ConstInt64()
 		if int(i) >= len(e.log) {
@@ -248,6 +258,8 @@ func (m *Machine) initExternalGlobal(g *ssa.Global, l Loc) {
 		m.storeRaw(l, Pointer{loc: m.env.stdStream("stdout")})
 	case "os.Stderr":
 		m.storeRaw(l, Pointer{loc: m.env.stdStream("stderr")})
+	case "io.Discard", "io/ioutil.Discard":
+		m.storeRaw(l, IfaceV{t: discardType, v: &DiscardObj{}})
 	case "io.EOF":
 		m.storeRaw(l, IfaceV{t: errObjType, v: &ErrObj{msg: "EOF"}})
 	}
@@ -534,7 +546,10 @@ func (m *Machine) envIntrinsic(name string, fn *ssa.Function, args []Value) (Val
 	return m.envIntrinsic2(name, fn, args)
 }
 
-type FileInfoObj struct{ size int64 }
+type FileInfoObj struct {
+	size int64
+	dir  bool
+}
 
 var fileInfoType = types.NewPointer(types.NewNamed(types.NewTypeName(0, nil, "intrinsicFileInfo", nil), types.NewStruct(nil, nil), nil))
 
@@ -629,6 +644,8 @@ func (m *Machine) invokeOpaque(iv IfaceV, method *types.Func, args []Value) (Val
 		switch method.Name() {
 		case "Size":
 			return m.ctx.IntI(SI64, o.size), true
+		case "IsDir":
+			return m.ctx.Bool(o.dir), true
 		}
 		m.unsupported("FileInfo." + method.Name())
 	}
